@@ -24,13 +24,15 @@ Verdict(cs) ==
   ELSE V9(TRUE, "ok", "", "")
 \* A keyword-shaped name (ERNO, TOX, ..): the grammar may refuse it, or read it as something that is not a variable
 \* (the function ERNO); but it must do so in every position.  cs.uses : the accepted positions of one name, each
-\* [vars (the name first, then the fixed extras), out].
+\* [vars (the name first, then the other variables of the position), alt (the variables Color BASIC's own
+\* tokeniser finds in the statement: CLSX=1 is CLS X=1), out].
 VerdictGroup(cs) ==
   LET img(k) == N!Target(N!UpperS(cs.uses[k].vars[1].name), cs.uses[k].vars[1].arr)
       has == { k \in 1..Len(cs.uses) : img(k) \in UserIds(cs.uses[k].out, {img(k)}) }
       hasnot == (1..Len(cs.uses)) \ has
       bad == { k \in has : Verdict(cs.uses[k]).ok = FALSE }
-      extra(k) == UserIds(cs.uses[k].out, {}) \ Expected(Tail(cs.uses[k].vars)) IN
+      \* not a variable for the tool: the identifiers are those of the position and of the statement as Color BASIC reads it (alt)
+      extra(k) == UserIds(cs.uses[k].out, {}) \ (Expected(Tail(cs.uses[k].vars)) \cup Expected(cs.uses[k].alt)) IN
   IF has # {} /\ hasnot # {} THEN V9(FALSE, "identity", "identity:name-is-a-variable-in-one-position-and-something-else-in-another",
                                       ToString(<<CHOOSE k \in has : TRUE, CHOOSE k \in hasnot : TRUE>>))
   ELSE IF bad # {} THEN Verdict(cs.uses[CHOOSE k \in bad : TRUE])
